@@ -19,7 +19,7 @@ ActFor(act) ==
     [] OTHER -> FALSE
 TraceInit == Init /\ l = 1
 Reset == /\ st' = [x \in Nodes |-> 0] /\ comp' = [x \in Nodes |-> {x}] /\ know' = [x \in Nodes |-> Blank]
-         /\ part' = {} /\ ops' = 0 /\ last' = [a |-> "init"] /\ M' = [bad |-> {}, wrong |-> {}]
+         /\ part' = {} /\ ops' = 0 /\ last' = [a |-> "init"] /\ M' = [bad |-> {}, wrong |-> {}, tags |-> {}] /\ passive' = {}
 Step ==
   /\ l <= Len(Trace)
   /\ l' = l + 1
@@ -27,12 +27,12 @@ Step ==
      ELSE IF Line.act.a = "quiet"
             THEN /\ M' = MonQuiet(M, Line.obs.views)
                  /\ last' = Line.act
-                 /\ UNCHANGED <<st, comp, know, part, ops>>
+                 /\ UNCHANGED <<st, comp, know, part, ops, passive>>
      ELSE \/ ActFor(Line.act) /\ ops' = ops + 1 /\ UNCHANGED M
           \/ /\ ~ENABLED (ActFor(Line.act) /\ ops' = ops + 1 /\ UNCHANGED M)
              /\ PrintT(<<"DIVERGE", l>>)
              /\ UNCHANGED vars
-  /\ ~(M'.bad \subseteq M.bad) => PrintT(<<"MONITOR", l, M'.bad \ M.bad, M'.wrong>>)
+  /\ ~(M'.bad \subseteq M.bad) => PrintT(<<"MONITOR", l, M'.bad \ M.bad, M'.tags>>)
 TraceNext == Step
 TraceSpec == TraceInit /\ [][TraceNext]_tvars
 Done == l = Len(Trace) + 1 => PrintT(<<"DONE", l>>)
